@@ -23,8 +23,8 @@ use vengine::{prop_sub, Property, Tier};
 pub fn property() -> Property {
     Property {
         id: "C09",
-        rule: "cases = (dataset: separated blobs | overlapping cloud | few distinct points repeated | integer lattice | (para_box) dispersed cloud with a bias column / unit box [1,2]^p, n 1..=80 (200 thorough; 600/2000 in `large`), \
-               p 1..=4, f32|f64, coordinates scaled by 1, 2^10 or 2^-10; k 1..=min(n,6); metric L2|L1|Linf; init Random|KMeans++|KMeans|||Precomputed (data rows with repeats, \
+        rule: "cases = (dataset: separated blobs | overlapping cloud | few distinct points repeated | integer lattice | (para_box) dispersed cloud with a bias column / unit box [1,2]^p, n 1..=80 (200 thorough; `large`: 600/2000, 2047..=4200 incl. 2047/2048/2049, multiples of 64..1024 and multiples +-1), \
+               p 1..=4, f32|f64, coordinates scaled by 1, 2^10 or 2^-10; k 1..=min(n,6); metric L2|L1|Linf|LpDist(1,2,3,4,5,1.5,2.5,3.3); init Random|KMeans++|KMeans|||Precomputed (data rows with repeats, \
                free values possibly outside the data, half-integer offsets); memory layout of records / precomputed centroids / query batches row-major|column-major|strided; budget 1..=12 or 300; tolerance never|1e-4|1e-1; n_runs 1..=4; seed; fresh queries). \
                Non-trivial: trajectory = at least two Lloyd steps that change the assignment, or an exact tie in an assignment step, or duplicate points; \
                restarts = n_runs >= 2 and the single runs end in different centroids, or duplicate points; \
@@ -36,6 +36,7 @@ pub fn property() -> Property {
             "an index returned by predict is accepted when its reduced distance is within that tolerance of the minimum; on a tie ANY minimal index is accepted (the statement does not fix the tie-break)".into(),
             "trajectory: expected centroid = (sum of assigned points + previous centroid)/(count+1) in f64, tolerance (n+64) eps scale per coordinate; a step in which some point is nearly (not exactly) tied is not judged; exactly tied points (equal in f64 and in the element type) may go to any of their tied centroids: all combinations are tried when <= 4 points are tied (<= 256 combinations), otherwise only the lowest-index and highest-index conventions and a mismatch is counted as exact_tie_step_not_judged".into(),
             "stopping rule modelled by evaluating distance(old,new) in the element type: < tolerance/2 must stop, > 2 tolerance must continue, in between either; tolerance 'never' = 1e-300 (f64) / 1e-38 (f32)".into(),
+            "LpDist(q): reference (sum |d|^q)^(1/q) in f64; allowed deviation (64 + 4 |ln r|) eps r + (16 min_positive)^(1/q): (q+2) eps per term, 4 eps for the sum, eps |ln r| from the exponent 1/q rounded in the element type, ~2 ulp per powf; underflowing terms move r by at most (4 min_positive)^(1/q)".into(),
             "cost monotonicity is asserted for L2 only (theorem for the mean update), allowed rise 4 sqrt(n cost) d + 2 n d^2 + 1e-12 cost with d = (n+64) eps scale sqrt(p)".into(),
             "bounding box slack (2n+8) eps scale (steady-state rounding excursion of a convex combination), box = data, plus the precomputed start when it lies outside".into(),
             "statistics are judged only for runs shown converged (identical centroids for budgets m and m+1 of the same deterministic run): counts must contain every point whose nearest centroid is clear by more than 2 tolerance, inertia within mean(tolerance (2 d_i + tolerance)) (L2) or tolerance (L1/Linf) of the mean minimal reduced distance".into(),
@@ -46,17 +47,19 @@ pub fn property() -> Property {
         subs: vec![
             prop_sub("trajectory", 40000, 400000, |t: Tier| cases::trajectory_case(t), checks::check_trajectory)
                 .chunks(16)
-                .require(&["precomputed_column_major", "precomputed_transposed_owned", "records_strided_view", "two_or_more_reassigning_steps", "exact_tie_in_assignment", "converged_run_statistics_judged", "stopped_within_budget"]),
+                .require(&["metric_lp_odd_whole", "metric_lp_even_whole", "metric_lp_fractional", "precomputed_column_major", "precomputed_transposed_owned", "records_strided_view", "two_or_more_reassigning_steps", "exact_tie_in_assignment", "converged_run_statistics_judged", "stopped_within_budget"]),
             prop_sub("restarts", 30000, 300000, |t: Tier| cases::restarts_case(t), checks::check_restarts)
                 .chunks(16)
                 .require(&["best_run_is_not_last", "runs_reach_different_centroids", "best_run_converged"]),
             prop_sub("assign", 60000, 600000, |t: Tier| cases::assign_case(t), checks::check_assign)
                 .chunks(16)
-                .require(&["precomputed_column_major", "model_centroids_not_row_major", "records_column_major", "row_major_twin_compared", "exact_tie_query", "init_para", "fewer_distinct_points_than_k", "fresh_queries"]),
+                .require(&["metric_lp_odd_whole", "metric_lp_even_whole", "metric_lp_fractional", "precomputed_column_major", "model_centroids_not_row_major", "records_column_major", "row_major_twin_compared", "exact_tie_query", "init_para", "fewer_distinct_points_than_k", "fresh_queries"]),
             prop_sub("para_box", 20000, 200000, |t: Tier| cases::para_box_case(t), checks::check_assign)
                 .chunks(16)
                 .require(&["para_small_budget_origin_outside_box", "data_dispersed_off_origin"]),
-            prop_sub("large", 64, 300, |t: Tier| cases::large_case(t), checks::check_large).chunks(8),
+            prop_sub("large", 64, 300, |t: Tier| cases::large_case(t), checks::check_large)
+                .chunks(16)
+                .require(&["n_ge_2048_not_multiple_of_256", "n_multiple_of_64"]),
         ],
     }
 }
